@@ -17,12 +17,12 @@ vars == <<case, st, res, hist, done>>
 MC_Own == 5
 MC_OwnP == [p1 |-> 128, p2 |-> 128]
 MC_Q0 == [class |-> 248, acc |-> 254, var |-> 65535]
-MC_TP0 == [utc |-> "null", leap |-> 0, tt |-> FALSE, ft |-> FALSE, ptp |-> FALSE, src |-> 160]
+MC_TP0 == [utc |-> NoUtc, leap |-> 0, tt |-> FALSE, ft |-> FALSE, ptp |-> FALSE, src |-> 160]
 E2E(mo, aml) == [p2p |-> FALSE, mo |-> mo, aml |-> aml, keep |-> 1]
-PCfg_A == << E2E(FALSE, "any"), E2E(FALSE, "any") >>
-PCfg_B == << E2E(FALSE, "any"), E2E(TRUE, "any") >>
-PCfg_T == << E2E(FALSE, "any"), E2E(FALSE, "any"), E2E(FALSE, "any") >>
-PCfg_E == << E2E(FALSE, "any") >>
+PCfg_A == << E2E(FALSE, AnyId), E2E(FALSE, AnyId) >>
+PCfg_B == << E2E(FALSE, AnyId), E2E(TRUE, AnyId) >>
+PCfg_T == << E2E(FALSE, AnyId), E2E(FALSE, AnyId), E2E(FALSE, AnyId) >>
+PCfg_E == << E2E(FALSE, AnyId) >>
 
 \* grandmaster records relative to the own attributes <<128, class, 254, 65535, 128, 5>>; each differs from the
 \* default own data set in the first deciding attribute of Figure 34
@@ -38,7 +38,7 @@ G(k) == CASE k = 0 -> <<128, 248, 254, 65535, 128, 5>>    \* the own clock, rela
           [] k = 9 -> <<128, 127, 254, 65535, 128, 9>>    \* clockClass 127
           [] k = 10 -> <<128, 255, 254, 65535, 128, 1>>   \* clockClass 255 (slave-only clock relayed)
 
-Tp(k) == [utc |-> IF k % 2 = 0 THEN 37 ELSE "null", leap |-> IF k % 3 = 0 THEN 61 ELSE IF k % 3 = 1 THEN 59 ELSE 0,
+Tp(k) == [utc |-> IF k % 2 = 0 THEN 37 ELSE NoUtc, leap |-> IF k % 3 = 0 THEN 61 ELSE IF k % 3 = 1 THEN 59 ELSE 0,
           tt |-> k % 2 = 1, ft |-> k % 4 < 2, ptp |-> TRUE, src |-> 16 * (1 + (k % 6))]
 
 \* a candidate: sender clock identity, grandmaster record, stepsRemoved
